@@ -25,13 +25,23 @@ def rows(pid, repo, res):
     src = _src(repo)
     rows, failed = {}, {}
     # I.no_statics (C20): the only way one arena's code could name another arena's memory
-    hits = []
+    hits, unknown = [], []
+    MUT = r'Cell|Atomic|Mutex|RwLock|Once|Lazy|RefCell|UnsafeCell|Rc<|Arc<|Box<|Vec<|Metrics|Context|Gc'
+    PLAIN = r"^(&'static\s+)?(&\s*)?(str|bool|char|[iu](8|16|32|64|128|size)|f(32|64)|GcVtable|Layout|\[[^\]]*\]|\(\))$"
     for f, s in src.items():
-        for m in re.finditer(r'(?m)^\s*(?:pub(?:\([a-z]+\))?\s+)?static\s+(?:mut\s+)?\w+\s*:|thread_local!\s*[\({]', s):
+        for m in re.finditer(r'thread_local!\s*[\({]', s):
             hits.append('%s: %s' % (f, m.group(0).strip()))
-    rows['I.no_statics'] = dict(serves=['C20'], kind='inventory', fn='src/*.rs', text='no `static`, `static mut` or `thread_local!` item in src/ (all collector state is per arena)')
+        for m in re.finditer(r'(?m)^\s*(?:pub(?:\([a-z]+\))?\s+)?static\s+(mut\s+)?(\w+)\s*:\s*(.+?)\s*(?:=[^=>]|;\s*$)', s):
+            ty = ' '.join(m.group(3).split())
+            if m.group(1) or re.search(MUT, ty):
+                hits.append('%s: static %s%s: %s' % (f, m.group(1) or '', m.group(2), ty))
+            elif not re.match(PLAIN, ty):
+                unknown.append('%s: static %s: %s' % (f, m.group(2), ty))
+    rows['I.no_statics'] = dict(serves=['C20'], kind='inventory', fn='src/*.rs', text='no `static mut`, no `thread_local!` and no `static` with interior mutability or owning collector state in src/ (all collector state is per arena); immutable plain-data statics are fine')
     if hits:
-        failed['I.no_statics'] = ['static items found: %s' % hits]
+        failed['I.no_statics'] = ['shared mutable state found: %s' % hits]
+    elif unknown:
+        raise Undecided('inventory: `static` items of a type this check cannot classify as immutable plain data: %s' % unknown)
     # I.phase_assignments (C08): every phase change goes through PhaseGuard::{enter, switch}
     inv = (res.get('verus') or {}).get('inventory')
     if inv is not None:
@@ -51,32 +61,79 @@ def rows(pid, repo, res):
     ctx = src.get('context.rs', '')
     rows['I.reclaim_sites'] = dict(serves=['C03', 'C04'], kind='inventory', fn='src/*.rs',
                                    text='GcPtr::drop_in_place / GcPtr::dealloc are called only from Context::sweep_one, Drop for Context (DropAll), and the builder Drop impls (own, never-linked block)')
-    sites = []
+    cfn = [(m.group(1), m.start()) for m in re.finditer(r'\bfn (\w+)', ctx)]
+    def c_enclosing(pos):
+        cur = '?'
+        for n, st in cfn:
+            if st <= pos: cur = n
+            else: break
+        return cur
+    def c_callers(name):
+        return {c_enclosing(m.start()) for m in re.finditer(r'(?:\.|Self::|Context::)%s\(' % name, ctx)} - {name}
+    def c_roots(f):
+        """the functions of context.rs from which f is reachable and that have no caller inside context.rs themselves (f included if so)"""
+        seen, todo, roots = {f}, [f], set()
+        while todo:
+            g = todo.pop()
+            cs = c_callers(g)
+            if g in ('sweep_one', 'drop') or not cs:
+                roots.add(g); continue
+            for c in cs:
+                if c not in seen:
+                    seen.add(c); todo.append(c)
+        return roots
+    bad = []
     for f, s in src.items():
         for m in re.finditer(r'\.(drop_in_place|dealloc)\(\)', s):
             pre = s[:m.start()]
             fns = re.findall(r'fn (\w+)', pre)
-            sites.append((f, fns[-1] if fns else '?', m.group(1)))
-    allowed = {('context.rs', 'drop', 'drop_in_place'), ('context.rs', 'drop', 'dealloc'), ('context.rs', 'sweep_one', 'drop_in_place'),
-               ('context.rs', 'sweep_one', 'dealloc'), ('gc.rs', 'drop', 'dealloc')}
-    bad = [x for x in sites if x not in allowed]
+            encl = fns[-1] if fns else '?'
+            if f == 'context.rs':
+                # a private helper extracted from the sweep / the arena drop is fine: what matters is from where it can be reached
+                rs = c_roots(encl)
+                if not rs <= {'sweep_one', 'drop'}:
+                    bad.append((f, encl, m.group(1), 'reachable from %s' % sorted(rs - {'sweep_one', 'drop'})))
+            elif (f, encl, m.group(1)) not in {('gc.rs', 'drop', 'dealloc')}:
+                bad.append((f, encl, m.group(1)))
     if bad:
         failed['I.reclaim_sites'] = ['reclamation call sites outside the sweep / arena drop / builder drop: %s' % bad]
     # I.collection_entry (C03): do_collection is called only from &mut self / self methods of Arena / MarkedArena
     ar = src.get('arena.rs', '')
     rows['I.collection_entry'] = dict(serves=['C03', 'C08'], kind='inventory', fn='src/arena.rs',
                                       text='Context::do_collection is called only from Arena::{collect_debt, mark_debt, finish_marking, cycle_debt, finish_cycle} (&mut self) and MarkedArena::start_sweeping (self)')
-    callers = []
+    afn = [(m.group(1), m.start(), m.group(2).split(',')[0].strip()) for m in re.finditer(r'\bfn (\w+)[^{;(]*\(([^)]*)\)', ar)]
+    def a_enclosing(pos):
+        cur = ('?', '?')
+        for n, st, recv in afn:
+            if st <= pos: cur = (n, recv)
+            else: break
+        return cur
+    def a_callers(name):
+        return {a_enclosing(m.start()) for m in re.finditer(r'(?:\.|Self::)%s\(' % name, ar)} - {x for x in [(name, r) for (_, _, r) in afn]}
+    ENTRY = {'collect_debt': '&mut self', 'mark_debt': '&mut self', 'finish_marking': '&mut self', 'cycle_debt': '&mut self', 'finish_cycle': '&mut self', 'start_sweeping': 'self'}
+    bad = []
     for f, s in src.items():
         for m in re.finditer(r'\.do_collection\(', s):
-            pre = s[:m.start()]
-            sig = re.findall(r'fn (\w+)[^{;]*?\(([^)]*)\)', pre)
-            callers.append((f, sig[-1][0] if sig else '?', (sig[-1][1].split(',')[0].strip() if sig else '?')))
-    exp = {('arena.rs', 'collect_debt', '&mut self'), ('arena.rs', 'mark_debt', '&mut self'), ('arena.rs', 'finish_marking', '&mut self'),
-           ('arena.rs', 'cycle_debt', '&mut self'), ('arena.rs', 'finish_cycle', '&mut self'), ('arena.rs', 'start_sweeping', 'self')}
-    bad = [c for c in callers if c not in exp]
+            if f != 'arena.rs':
+                bad.append((f, 'do_collection called outside arena.rs'))
+                continue
+            # walk up through private helpers of arena.rs to the public methods the call is reachable from
+            seen, todo = set(), [a_enclosing(m.start())]
+            while todo:
+                (n, recv) = todo.pop()
+                if (n, recv) in seen:
+                    continue
+                seen.add((n, recv))
+                if n in ENTRY:
+                    if recv != ENTRY[n]:
+                        bad.append((f, n, recv))
+                    continue
+                cs = a_callers(n)
+                if not cs:
+                    bad.append((f, n, recv))
+                todo += list(cs)
     if bad:
-        failed['I.collection_entry'] = ['collection work reachable from %s' % bad]
+        failed['I.collection_entry'] = ['collection work reachable from %s' % sorted(set(bad))]
     # I.collection_steps (C03): the steps that destruct / release (and the marking step) run only under the driver.  Call graph of context.rs by
     # name: every chain of callers of sweep_one / mark_one inside context.rs must end in do_collection (private helpers in between are fine).
     rows['I.collection_steps'] = dict(serves=['C03'], kind='inventory', fn='src/context.rs',
